@@ -367,6 +367,10 @@ func runC13(rc *RunCtx) {
 					return
 				}
 				var heldVals []modbus.FieldValue
+				if !rc.Race && o.Bit%4 == 3 {
+					logLine(resp) // the application logs the response (and the view) between two reads
+					logLine(view)
+				}
 				got := applyRdOp(view, resp, start, o, &heldVals)
 				if rc.Race {
 					continue // no functional oracle (and no shared harness state) in race mode
